@@ -89,7 +89,8 @@ def get_use_tree(
             elif type(use_stmnt) is Use:
                 use_dict[use_stmnt.mod_name] = Use(use_stmnt.mod_name)
             # Skip if we have already visited module with the same only list
-            if old_len == len(use_dict_mod.only_list):
+            # (the entry may have been replaced by an unrestricted one above)
+            if old_len == len(use_dict[use_stmnt.mod_name].only_list):
                 continue
         else:
             if type(use_stmnt) is Use:
